@@ -72,7 +72,7 @@ Record ovf_file (V : Type) := mkFile {
   f_check : option Q;                  (* binary only *)
   f_payload : list V;
   f_cols : nat;                        (* text only: values per data line *)
-  f_tail_ok : bool                     (* what follows nodes*valuedim values is (a prefix of) "# End: Data" *)
+  f_tail_ok : bool                     (* what follows nodes*valuedim values starts with "# End: Data" *)
 }.
 Arguments mkFile {V}.
 Arguments f_v2 {V}. Arguments f_meshunit {V}. Arguments f_base {V}. Arguments f_nodes {V}.
